@@ -24,7 +24,7 @@ func init() {
 			{Name: "schedules", Pkg: "./pkg/regserver/regprocessor", Run: "^TestVerifC13Schedules$", Drivers: []string{"regproc"}, HangIsViol: true, TimeoutQ: 10 * time.Minute, TimeoutT: 40 * time.Minute},
 			{Name: "stress", Pkg: "./pkg/regserver/regprocessor", Run: "^TestVerifC13Stress$", Drivers: []string{"regproc"}, Race: true, HangIsViol: true, TimeoutQ: 10 * time.Minute, TimeoutT: 40 * time.Minute,
 				RaceFilter: func(r RaceReport) bool { return r.Has("regprocessor.") && !strings.Contains(r.Key(), "?|?") }},
-			{Name: "sighup", Dir: "cmd/registration-server", Pkg: ".", Run: "^TestVerifC13Sighup$", Drivers: []string{"regserver"}, Netns: true, HangIsViol: true, TimeoutQ: 10 * time.Minute, TimeoutT: 40 * time.Minute},
+			{Name: "sighup", Dir: "cmd/registration-server", Pkg: ".", Run: "^TestVerifC13Sighup$", Drivers: []string{"regserver"}, Netns: true, HangIsViol: true, SignalDeathIsViol: []string{"hangup"}, TimeoutQ: 10 * time.Minute, TimeoutT: 40 * time.Minute},
 		},
 	})
 }
